@@ -9,7 +9,11 @@ Tie to the code, evaluated inside Coq (Check/C09chk.v):
   * stream probe : one schema string at one emission site: the literal text the real generator wrote
                    against the model's `emit`, and what CPython reads back against the model's `lex_tok`;
   * stream class : whole classes of the modelled fragment: real generated source against
-                   `render (class_toks c)`, model prediction against compile/exec/back-mapping.
+                   `render (class_toks c)`, model prediction against compile/exec/back-mapping; the required list
+                   structure_to_schema returns against `back_required (final_required ..)`;
+  * stream module: (main schema, definitions referring to each other) through write_code_from_schema (harness/c09mod.py):
+                   the written file against `render (module_toks ..)` under the GENERATED layout Gen/ModuleLayout.v,
+                   CPython's NameError (which name) against `first_unbound`.
 Spec clauses evaluated on the implementation alone (these give the replays): generated source compiles,
 executes to Structure classes, structure_to_schema of them returns the input schema up to key order
 and required order, the caller's schema is left intact, the docstring carries the description; on the
@@ -1345,6 +1349,9 @@ def run(rep, tier):
         "str.isprintable and the keyword list are those of the running CPython (instantiated per shard / generated)",
         "class correspondence on the modelled fragment (string, integer/number, boolean, enum, $ref, array, allOf/anyOf/oneOf/not, "
         "nested object, map with value schema, scalar/list/dict defaults); other keywords are exercised by the spec clauses only",
+        "module name resolution: class bodies evaluate field expressions eagerly and in textual order; the names bound by "
+        "`from typedpy import *` are disjoint from the definition names of the modelled stream (a definition that shadows one "
+        "is judged by the spec clauses only)",
     ]
     table = _site_table()
     disc = dict(table)
@@ -1475,9 +1482,12 @@ def run(rep, tier):
     return rep.finish(
         rule="probe = (emission site, string over {plain, quote, double quote, backslash, newline, triple quote, "
              "non-ASCII, escapes, rare control/surrogate}) on a minimal schema; lexer = random literal text; class = seeded "
-             "schemas over the supported keyword set with string payloads from the same alphabet; documents = values at "
-             "each bound of each keyword. distinct = distinct (site, trigger class, outcome) / literal texts / "
-             "(outcome, finding shapes, size)")
+             "schemas over the supported keyword set with string payloads from the same alphabet; module = every "
+             "(reference position x holder x spare definition) deterministically + seeded definition DAGs (declared in "
+             "dependency order / shuffled / recursive) through write_code_from_schema and the string entry points; "
+             "documents = per property a value the validator accepts or one neighbour it rejects, at each bound of each "
+             "keyword, with and without $ref into definitions. distinct = distinct (site, trigger class, outcome) / "
+             "literal texts / (outcome, finding shapes, size) / (shape, outcome, reference positions, #definitions)")
 
 
 def run_modules(rep, rnd, disc, n_random):
